@@ -127,4 +127,71 @@ static inline bool spec_st_wf(const Set_uint64_t *m) {
     return true;
 }
 #endif /* VF_WITH_SET */
+
+#ifdef VF_WITH_MAP
+/* ------------------------------------------------------------------ Map<uint64_t>: string keys (one-letter
+ * strings in the harness: the abstract key is the letter), abstract view = partial function letter -> value.
+ * hash(const char*) is replaced by an uninterpreted function of the letter. */
+#define MP_OCC(m, i) ((m)->items[i].key != NULL)
+#define MP_KEY(m, i) ((uint64_t)(uint8_t)(m)->items[i].key[0])
+static inline bool spec_mp_has(const Map_uint64_t *m, uint64_t q) {
+    for (uint64_t i = 0; i < VF_CAPMAX; i++)
+        if (i < m->capacity && MP_OCC(m, i) && MP_KEY(m, i) == q) return true;
+    return false;
+}
+static inline uint64_t spec_mp_lookup(const Map_uint64_t *m, uint64_t q) {
+    for (uint64_t i = 0; i < VF_CAPMAX; i++)
+        if (i < m->capacity && MP_OCC(m, i) && MP_KEY(m, i) == q) return m->items[i].value;
+    return 0;
+}
+static inline uint64_t spec_mp_occupied(const Map_uint64_t *m) {
+    uint64_t c = 0;
+    for (uint64_t i = 0; i < VF_CAPMAX; i++)
+        if (i < m->capacity && MP_OCC(m, i)) c++;
+    return c;
+}
+static inline bool spec_mp_chain_ok(const Map_uint64_t *m, uint64_t i) {
+    uint64_t j = vf_hash(MP_KEY(m, i)) % m->capacity;
+    for (uint64_t s = 0; s < VF_CAPMAX; s++) {
+        if (j == i) return true;
+        if (!MP_OCC(m, j)) return false;
+        j++;
+        if (j == m->capacity) j = 0;
+    }
+    return false;
+}
+static inline bool spec_mp_probe_stops(const Map_uint64_t *m, uint64_t k, uint64_t i) {
+    if (i >= m->capacity) return false;
+    if (MP_OCC(m, i) && MP_KEY(m, i) != k) return false;
+    uint64_t j = vf_hash(k) % m->capacity;
+    for (uint64_t s = 0; s < VF_CAPMAX; s++) {
+        if (j == i) return true;
+        if (!MP_OCC(m, j) || MP_KEY(m, j) == k) return false;
+        j++;
+        if (j == m->capacity) j = 0;
+    }
+    return false;
+}
+/* keys are valid one-letter strings */
+static inline bool spec_mp_keys_ok(const Map_uint64_t *m) {
+    for (uint64_t i = 0; i < VF_CAPMAX; i++)
+        if (i < m->capacity && MP_OCC(m, i) && !(VF_R_OK(m->items[i].key, 2) && m->items[i].key[0] != 0 && m->items[i].key[1] == 0)) return false;
+    return true;
+}
+static inline bool spec_mp_wf(const Map_uint64_t *m) {
+    if (m->capacity == 0) return m->count == 0;
+    if (m->capacity > VF_CAPMAX || m->items == NULL) return false;
+    if (!spec_mp_keys_ok(m)) return false;
+    if (m->count >= m->capacity || spec_mp_occupied(m) != m->count) return false;
+    for (uint64_t i = 0; i < VF_CAPMAX; i++) {
+        if (i < m->capacity && MP_OCC(m, i)) {
+            if (!spec_mp_chain_ok(m, i)) return false;
+            for (uint64_t j = 0; j < VF_CAPMAX; j++)
+                if (j < i && MP_OCC(m, j) && MP_KEY(m, j) == MP_KEY(m, i)) return false;
+        }
+    }
+    return true;
+}
+#define KEY1(k) (VF_R_OK(k, 2) && (k)[0] != 0 && (k)[1] == 0)
+#endif /* VF_WITH_MAP */
 #endif
